@@ -1,5 +1,7 @@
-(* C01 - property theorems only.  Each is closed by [exact] of a lemma from Proofs.v. *)
-From TM Require Import Base.Prelude Base.OneHot C01.Model C01.Spec C01.Proofs.
+(* C01 - property theorems only.  Each is closed by [exact] of a lemma from Proofs*.v. *)
+From TM Require Import Base.Prelude Base.OneHot C01.Model C01.Spec C01.Proofs
+  C01.ProofsMulti C01.ProofsRand C01.V0.
+Open Scope Z_scope.
 
 (* for every tensor, motif and integer start: the model's outcome satisfies the pointwise
    spec (exact overwrite inside [p,p+m), identity outside, valid one-hot columns, same
@@ -15,3 +17,70 @@ Print Assumptions c01_insert.
 Theorem c01_delete : forall X s e, spec_ok (CDel X s e) (model (CDel X s e)) = true.
 Proof. exact del_spec. Qed.
 Print Assumptions c01_delete.
+
+(* for every tensor, every list of motifs, every spacing list and every start (or the centred
+   default): accepted iff every placement p_k = p + sum_{j<k} (m_j + spacing_j) lies wholly
+   inside; then column q of example i is the column of the last motif covering q, else X's *)
+Theorem c01_multisubstitute : forall X ms sp start,
+  spec_ok (CMulti X ms sp start) (model (CMulti X ms sp start)) = true.
+Proof. exact multi_spec. Qed.
+Print Assumptions c01_multisubstitute.
+
+(* for every tensor, span and list of drawn replacements: a span not inside the sequence is
+   rejected; otherwise, for replacements randomize can draw (one-hot over X's alphabet, length
+   end-start) there is one sample per replacement, each with valid columns and equal to X
+   outside [start, end) *)
+Theorem c01_randomize : forall X s e Rs,
+  spec_ok (CRand X s e Rs) (model (CRand X s e Rs)) = true.
+Proof. exact rand_spec. Qed.
+Print Assumptions c01_randomize.
+
+Theorem c01_all : forall c, spec_ok c (model c) = true.
+Proof. exact all_spec. Qed.
+Print Assumptions c01_all.
+
+(* consequence: every call in scope is accepted by the model (nothing inside the sequence is
+   rejected) *)
+Theorem c01_in_scope_accepted : forall c, in_scope c = true -> is_ok (model c) = true.
+Proof. exact (fun c H => in_scope_ok c (model c) H (all_spec c)). Qed.
+Print Assumptions c01_in_scope_accepted.
+
+(* ---------- non-vacuity: one concrete, non-trivial call of each kind is in scope ---------- *)
+
+(* X = ["ACGTA"; "TTGCA"] over {A,C,G,T} *)
+Definition ex_X : tensor := T 4 5
+  [ [[1;0;0;0]; [0;1;0;0]; [0;0;1;0]; [0;0;0;1]; [1;0;0;0]];
+    [[0;0;0;1]; [0;0;0;1]; [0;0;1;0]; [0;1;0;0]; [1;0;0;0]] ].
+Definition ex_GG : tensor := T 4 2 [ [[0;0;1;0]; [0;0;1;0]] ].                 (* shared "GG" *)
+Definition ex_CT : tensor := T 4 1 [ [[0;1;0;0]]; [[0;0;0;1]] ].               (* per-example "C" / "T" *)
+Definition ex_R  : tensor := T 4 2 [ [[0;0;0;1]; [0;0;0;1]]; [[1;0;0;0]; [0;1;0;0]] ].
+
+Example c01_nonvacuous :
+  in_scope (CSub ex_X ex_GG (Some 3)) = true /\
+  in_scope (CIns ex_X ex_CT (Some 5)) = true /\
+  in_scope (CDel ex_X 1 3) = true /\
+  in_scope (CMulti ex_X [ex_GG; ex_CT; ex_GG] [0; 0] (Some 0)) = true /\
+  in_scope (CMulti ex_X [ex_GG; ex_CT] [1] None) = true /\
+  in_scope (CRand ex_X 3 5 [ex_R; ex_R]) = true /\
+  (* and an accepted result is what one expects: "GGCGG" / "GGTGG" *)
+  model (CMulti ex_X [ex_GG; ex_CT; ex_GG] [0; 0] (Some 0)) =
+    Ok [[ [[0;0;1;0]; [0;0;1;0]; [0;1;0;0]; [0;0;1;0]; [0;0;1;0]];
+          [[0;0;1;0]; [0;0;1;0]; [0;0;0;1]; [0;0;1;0]; [0;0;1;0]] ]] /\
+  (* ... and calls just outside are rejected *)
+  model (CSub ex_X ex_GG (Some 4)) = Err /\ model (CIns ex_X ex_CT (Some 6)) = Err /\
+  model (CDel ex_X 3 6) = Err /\ model (CMulti ex_X [ex_GG; ex_CT; ex_GG] [0; 0] (Some 1)) = Err /\
+  model (CRand ex_X 4 6 [ex_R]) = Err.
+Proof. vm_compute. repeat split. Qed.
+
+(* ---------- the two repaired defects: the pre-fix behaviour violates the spec ---------- *)
+
+Lemma c01_insert_v0_refuted : exists c, spec_ok c (model_v0_insert c) = false.
+Proof. exists insert_v0_witness. vm_compute. reflexivity. Qed.
+
+Lemma c01_randomize_v0_refuted : exists c, spec_ok c (model_v0_randomize c) = false.
+Proof. exists randomize_v0_witness. vm_compute. reflexivity. Qed.
+
+(* the current model accepts both witnesses with the expected result: "CA", and "A" *)
+Example c01_v0_witnesses_now_ok :
+  model insert_v0_witness = Ok [[ [[0;1]; [1;0]] ]] /\ model randomize_v0_witness = Ok [[ [[1;0]] ]].
+Proof. vm_compute. split; reflexivity. Qed.
